@@ -18,6 +18,7 @@ volume are decided by the Lean oracle (`closedOriented`, `signedVolumeCW`) on ev
 -/
 import ScadVerif.Props.C03
 import ScadVerif.Props.C05
+import ScadVerif.Props.C07
 import ScadVerif.Lemmas.MeshLemmas
 namespace ScadVerif.C04
 open ScadVerif ScadVerif.Dim3 ScadVerif.Dim3.Polyhedron ScadVerif.Spec ScadVerif.MeshLemmas
@@ -304,6 +305,29 @@ theorem loft_closed_of_complete (lower upper : List (Pt2 ℝ)) (height : ℝ) (p
   · have := cap_forward upper lower.length (by omega) (by rw [← hl]; exact ct)
     rw [← hl] at this
     rwa [ringF_shift] at this
+
+/-- **C04, cylinders — unconditional.** Every cylinder the library builds (viewer edges, thread cores,
+`cylinder` itself) is a closed, consistently oriented surface at the level of edge multisets, for
+every radius > 0, height and segment count: the circle is strictly convex (C07 `circle_convex`), the
+ear-clipping loop completes on convex polygons (C03 `convex_complete`), complete caps have their ring
+as boundary (`complete_edges`), and caps glue to the strip. -/
+theorem cylinder_closed (r height : ℝ) (hr : 0 < r) (seg : Nat) (p : Polyhedron ℝ)
+    (h : cylinder r height seg = some p) : EdgeClosed (allEdges p.faces) := by
+  unfold cylinder at h
+  simp only [Option.bind_eq_bind] at h
+  obtain ⟨c, hc, h⟩ := C05.bind_some h
+  have hconv := C07.circle_convex r hr seg c hc
+  apply linearExtrude_closed_of_complete c height p h
+  intro bottom top hb ht
+  have hn : 3 < c.length := by
+    unfold Tri.triangulate2d at ht; split at ht
+    · assumption
+    · simp at ht
+  obtain ⟨⟨t', ht', hlt⟩, ⟨b', hb', hlb⟩⟩ := C03.convex_complete false c hn hconv
+  rw [ht] at ht'; rw [hb] at hb'
+  injection ht' with ht'; injection hb' with hb'
+  subst ht'; subst hb'
+  exact ⟨hlb, hlt⟩
 
 /-- non-vacuity of the certificate: the two triangles of a square tile its ring -/
 example : CapTiles 4 0 true [[0, 1, 2], [0, 2, 3]] :=
